@@ -7,7 +7,7 @@ make setup >/dev/null 2>&1
 export VSIM_VERIF=$(pwd)
 [ -n "$VP_RUN_REPO" ] && export VSIM_REPO=$VP_RUN_REPO
 for p in "$@"; do
-  VERIF_SEED=$seed ./bin/vsim check $p --tier $tier > sweep_$p_$seed.log 2>&1
-  echo "SWEEP $p tier=$tier seed=$seed exit=$? $(grep '^vsim:' sweep_$p_$seed.log | tail -1)"
-  grep '^VIOLATION\|^violation\|infrastructure' sweep_$p_$seed.log | head -5
+  VERIF_SEED=$seed ./bin/vsim check $p --tier $tier > sweep_${p}_${seed}.log 2>&1
+  echo "SWEEP $p tier=$tier seed=$seed exit=$? $(grep '^vsim:' sweep_${p}_${seed}.log | tail -1)"
+  grep '^VIOLATION\|^violation\|infrastructure' sweep_${p}_${seed}.log | head -5
 done
